@@ -24,31 +24,31 @@ theorem hasTypeL_get : ∀ (env : List Val) (Γ : List Ty) (i : Nat) (v : Val) (
   | [], _ :: _, _, _, _, h, _, _ | _ :: _, [], _, _, _, h, _, _ => by simp [hasTypeL] at h
 
 theorem foldCommon_ub : ∀ (ts : List Ty) (t c : Ty), foldCommon t ts = some c →
-    ∀ x ∈ t :: ts, implCastable x c = true
+    ∀ x ∈ t :: ts, convertible x c = true
   | [], t, c, h => by
     simp only [foldCommon, Option.some.injEq] at h
     subst h
     intro x hx
     simp only [List.mem_singleton] at hx
     subst hx
-    exact implCastable_refl x
+    exact convertible_refl x
   | u :: us, t, c, h => by
     simp only [foldCommon] at h
     split at h
     · rename_i c' hc'
-      have s := commonType_sound t u c' hc'
+      have s := commonType_conv t u c' hc'
       have ih := foldCommon_ub us c' c h
       have hc'c := ih c' List.mem_cons_self
       intro x hx
       rcases List.mem_cons.1 hx with rfl | hx
-      · exact implCastable_trans _ _ _ s.1.1 hc'c
+      · exact convertible_trans _ _ _ s.1 hc'c
       · rcases List.mem_cons.1 hx with rfl | hx
-        · exact implCastable_trans _ _ _ s.1.2 hc'c
+        · exact convertible_trans _ _ _ s.2 hc'c
         · exact ih x (List.mem_cons_of_mem _ hx)
     · cases h
 
 theorem convAll_of_list : ∀ (vs : List Val) (ts : List Ty) (c : Ty), hasTypeL vs ts = true →
-    (∀ x ∈ ts, implCastable x c = true) → allHaveType (convAll c vs) c = true
+    (∀ x ∈ ts, convertible x c = true) → allHaveType (convAll c vs) c = true
   | [], [], _, _, _ => by simp [convAll, allHaveType]
   | v :: vs, t :: ts, c, hv, hc => by
     simp only [hasTypeL, Bool.and_eq_true] at hv
